@@ -85,6 +85,8 @@ class Classifier:
 def run(tier):
     t0 = time.time()
     quick = tier == "quick"
+    for old in glob.glob(os.path.join(vlib.workdir(PROP), "viol-*.json")):
+        os.unlink(old)          # replay files of an earlier run must not be mistaken for this run's
     v = vlib.Verdict(PROP)
     lay, lpath, mc = export_layouts(quick)
     refuted = []
@@ -117,7 +119,10 @@ def run(tier):
         s["kind"] = cl.kind(rec) if (kind == "rejected" and rec) else kind
         return s
 
+    t1 = time.time()
     p.confirm(v, sig, limit=200)
+    vlib.log("[c15] %d events in %d executions, replay %.1fs, validation %.1fs, confirmation %.1fs" % (
+        p.stats["events"], p.stats["executions"], p.stats["replay_s"], p.stats["validate_s"], time.time() - t1))
     rc = v.finish()
     classes = sorted({c for c, _ in bound})
     libcls = libtins_pdu_classes()
